@@ -16,8 +16,10 @@
 //     (the race detector flags unsynchronised conflicting accesses even when they do not misbehave).
 //   - some results are map-order dependent even sequentially (error wording of batch.Authorize, order of the validator's
 //     messages; C14's subject). "What the call returns when run alone" is therefore a set: a concurrent result that was not
-//     seen in the two sequential warm-up runs is re-tried alone 60 times after the phase and only a result that never
-//     shows up alone is a violation (label "nondeterministic-alone" otherwise).
+//     seen in the two sequential warm-up runs is re-tried alone up to 600 times after the phase (on the shared instance,
+//     whose maps have the same layout as during the phase) and only a result that never shows up alone is a violation
+//     (label "nondeterministic-alone" otherwise). validate.Entities is compared as valid/invalid only and validate.Policy
+//     as a sorted list of messages: their wording / order depends on map iteration by design.
 //   - panics inside an operation (C16's subject, e.g. validate.Policy on literal set values) are part of the compared
 //     result, not a C19 violation.
 //   - the schema/validator objects are used concurrently (race oracle, result oracle) but are not part of the
@@ -279,6 +281,12 @@ func errStr(err error) string {
 	return "error: " + err.Error()
 }
 
+func sortedLines(s string) string {
+	ls := strings.Split(s, "\n")
+	sort.Strings(ls)
+	return strings.Join(ls, "\n")
+}
+
 func bytesErr(b []byte, err error) string {
 	if err != nil {
 		return "error: " + err.Error()
@@ -426,10 +434,13 @@ var ops = []opDef{
 		return string(x.MarshalCedar()) + "\n" + bytesErr(x.MarshalJSON())
 	}},
 	{kind: "validate.Policy", classes: []int{clsPolicies, clsSchema}, dom: nPol, run: func(f *fixture, a, b int) string {
-		return errStr(f.validator.Policy(string(f.ids[a]), (*xast.Policy)(f.pols[a].AST())))
+		// several findings are joined in map-iteration order: compare them as a sorted list
+		return sortedLines(errStr(f.validator.Policy(string(f.ids[a]), (*xast.Policy)(f.pols[a].AST()))))
 	}},
 	{kind: "validate.Entities/Request", classes: []int{clsEntities, clsValues, clsSchema}, dom: nReq, run: func(f *fixture, a, b int) string {
-		return errStr(f.validator.Entities(f.em)) + " / " + errStr(f.validator.Request(f.reqs[a]))
+		// Entities() walks the entity map and reports the first entity that fails: which one that is, and hence the
+		// wording, depends on map iteration order by design; only valid / invalid is compared
+		return fmt.Sprintf("entities valid: %v / %s", f.validator.Entities(f.em) == nil, errStr(f.validator.Request(f.reqs[a])))
 	}},
 	{kind: "PartialPolicy", classes: []int{clsPolicies, clsEntities, clsValues}, dom: nPolReq, run: func(f *fixture, a, b int) string {
 		r := f.reqs[b]
@@ -775,12 +786,16 @@ func concurrentPhase(c *Case) Outcome {
 	if sa, sb := snapshot(a), snapshot(b); sa != sb {
 		out.Mutations = append(out.Mutations, "snapshot (IR + encoders) of the shared inputs differs from the untouched twin's: "+firstDiff(sb, sa))
 	}
-	// a concurrent result that was not seen alone: can the call, run alone, produce it as well? (60 further attempts)
+	// A concurrent result that was not seen alone: can the call, run alone, produce it as well? Results that depend on
+	// Go's randomised map iteration have variant probabilities that depend on the layout of the individual map object
+	// (per-map hash seed), and a variant can be as rare as 1/8 (small maps) or 1/32 (30 policies) per call. The retries
+	// therefore run on the shared instance itself (same maps as the concurrent calls; it is idle now and the immutability
+	// comparison is already done) and are numerous: missing a 1/32 variant 600 times in a row has probability 5e-9.
 	for _, s := range suspects {
 		k := s.o.key()
 		found := false
-		for try := 0; try < 60 && !found; try++ {
-			r := runOp(w, s.o)
+		for try := 0; try < 600 && !found; try++ {
+			r := runOp(a, s.o)
 			alone[k][r] = true
 			found = r == s.r
 		}
@@ -790,7 +805,7 @@ func concurrentPhase(c *Case) Outcome {
 			continue
 		}
 		if len(out.Mismatches) < 5 {
-			out.Mismatches = append(out.Mismatches, fmt.Sprintf("%s %s: the concurrent result was never produced by the same call run alone (%d distinct alone results in 62 runs); %s", s.where, k, len(alone[k]), diffAt(s.r, first[k])))
+			out.Mismatches = append(out.Mismatches, fmt.Sprintf("%s %s: the concurrent result was never produced by the same call run alone (%d distinct alone results in 602 runs); %s", s.where, k, len(alone[k]), diffAt(s.r, first[k])))
 		}
 	}
 	return out
